@@ -233,50 +233,63 @@ def checkMultisig (verify : Bytes → Bytes → Bool) : List Bytes → List Byte
   | [], _ :: _ => false
   | k :: ks, s :: ss => if verify k s then checkMultisig verify ks ss else checkMultisig verify ks (s :: ss)
 
-/-- SYSCALL (interop/context.go:524-538, crypto/ecdsa.go). -/
+/-- `vm.CheckMultisigPar` (vm.go:2049-2180) as far as its outcome goes: with one signature the keys are
+parsed lazily up to the first match, otherwise all keys are parsed first; a malformed key panics (FAULT). -/
+def multisigResult (validKey : Bytes → Bool) (verify : Bytes → Bytes → Bool) (keys sigs : List Bytes) : Option Bool :=
+  match sigs with
+  | [s] =>
+    let rec go : List Bytes → Option Bool
+      | [] => some false
+      | k :: ks => if !validKey k then none else if verify k s then some true else go ks
+    go keys
+  | _ => if keys.all validKey then some (checkMultisig verify keys sigs) else none
+
+/-- `crypto.ECDSASecp256r1CheckSig` (ecdsa.go:50-64) after the price was charged. -/
+def checkSigBody (gorgon : Bool) (validKey : Bytes → Bool) (verify : Bytes → Bytes → Bool) (s : VM) : Option VM :=
+  match s.stack with
+  | .bytes key :: .bytes sig :: rest =>
+    if !validKey key then none
+    else if gorgon && sig.length != signatureLen then none
+    else some { s with stack := .bool (verify key sig) :: rest }
+  | _ => none
+
+/-- `crypto.ECDSASecp256r1CheckMultisig` (ecdsa.go:28-47) after the elements were popped and the
+`n * ECDSAVerifyPrice` was charged; `st` is the stack below the popped elements. -/
+def multisigFinish (gorgon : Bool) (validKey : Bytes → Bool) (verify : Bytes → Bytes → Bool)
+    (keys sigs : List Bytes) (s : VM) : Option VM :=
+  if keys.length < sigs.length then none
+  else if gorgon && sigs.any (fun sg => sg.length != signatureLen) then none
+  else (multisigResult validKey verify keys sigs).map fun ok => { s with stack := .bool ok :: s.stack }
+
+/-- SYSCALL (interop/context.go:524-538: `Price * BaseExecFee` is charged, then the handler runs;
+crypto/ecdsa.go). -/
 def syscall (e : Env) (s : VM) (id : Bytes) : Option VM :=
   if id = checkSigId then
-    match charge e s (checkSigPrice * e.base) with
-    | none => none
-    | some s =>
-      match s.stack with
-      | .bytes key :: .bytes sig :: rest =>
-        if !e.validKey key then none
-        else if e.gorgon && sig.length != signatureLen then none
-        else some { s with stack := .bool (e.verify key sig) :: rest }
-      | _ => none
+    (charge e s (checkSigPrice * e.base)).bind (checkSigBody e.gorgon e.validKey e.verify)
   else if id = checkMultisigId then
-    match charge e s (checkMultisigPrice * e.base) with
-    | none => none
-    | some s =>
-      match popSigElements s.stack with
-      | none => none
-      | some (keys, st1) =>
-        match popSigElements st1 with
-        | none => none
-        | some (sigs, st2) =>
-          match charge e { s with stack := st2 } (e.base * ecdsaVerifyPrice * keys.length) with
-          | none => none
-          | some s =>
-            if keys.length < sigs.length then none
-            else if e.gorgon && sigs.any (fun sg => sg.length != signatureLen) then none
-            else some { s with stack := .bool (checkMultisig e.verify keys sigs) :: st2 }
+    (charge e s (checkMultisigPrice * e.base)).bind fun s =>
+      (popSigElements s.stack).bind fun (keys, st1) =>
+        (popSigElements st1).bind fun (sigs, st2) =>
+          (charge e { s with stack := st2 } (e.base * ecdsaVerifyPrice * keys.length)).bind
+            (multisigFinish e.gorgon e.validKey e.verify keys sigs)
   else none
+
+/-- the effect of one instruction of the modelled set, the opcode price already charged. -/
+def execBody (e : Env) (s : VM) (opc : Nat) (operand : Bytes) : Option VM :=
+  if opc ≤ opPUSHINT256 then some { s with stack := .int (signedLE operand) :: s.stack }
+  else if opc = opPUSHDATA1 ∨ opc = opPUSHDATA2 ∨ opc = opPUSHDATA4 then some { s with stack := .bytes operand :: s.stack }
+  else if opPUSHM1 ≤ opc ∧ opc ≤ opPUSH16 then some { s with stack := .int ((opc : Int) - (opPUSH0 : Int)) :: s.stack }
+  else if opc = opSYSCALL then syscall e s operand
+  else none
+
+/-- the check `v.refs > MaxStackSize` after every instruction (vm.go:733-736); no compound items here,
+so the reference count is the stack depth. -/
+def stackCheck (s : VM) : Option VM := if s.stack.length > maxStackSize then none else some s
 
 /-- one complete instruction: charge the opcode price, run it, check the stack size (vm.go:727-747). -/
 def exec (e : Env) (s : VM) (opc : Nat) (operand : Bytes) : Option VM :=
-  match charge e { s with mode := .op } (coeff opc * e.base) with
-  | none => none
-  | some s =>
-    let r : Option VM :=
-      if opc ≤ opPUSHINT256 then some { s with stack := .int (signedLE operand) :: s.stack }
-      else if opc = opPUSHDATA1 ∨ opc = opPUSHDATA2 ∨ opc = opPUSHDATA4 then some { s with stack := .bytes operand :: s.stack }
-      else if opPUSHM1 ≤ opc ∧ opc ≤ opPUSH16 then some { s with stack := .int ((opc : Int) - (opPUSH0 : Int)) :: s.stack }
-      else if opc = opSYSCALL then syscall e s operand
-      else none
-    match r with
-    | none => none
-    | some s => if s.stack.length > maxStackSize then none else some s
+  (charge e { s with mode := .op } (coeff opc * e.base)).bind fun s =>
+    (execBody e s opc operand).bind stackCheck
 
 /-- the fold step: one script byte. -/
 def step (e : Env) (s : VM) (b : UInt8) : Option VM :=
